@@ -342,7 +342,14 @@ func (s *sched) point(r *run, ev runner.VerifEvent) {
 		s.notify()
 		s.mu.Unlock()
 	case "wait.woke":
+		// as at the gate: the window between being woken by Broadcast and re-taking the target's mutex is a
+		// scheduling point; the for loop re-tests the status afterwards
 		s.heard(false)
+		if ev.Locker != nil && !s.isFree() {
+			ev.Locker.Unlock()
+			s.yield("rewait", ev.Label)
+			ev.Locker.Lock()
+		}
 	case "wait.done":
 		s.mu.Lock()
 		t := s.me()
@@ -452,7 +459,7 @@ func pendingObject(t *thread) (string, bool) {
 		return "status:" + t.arg, true
 	case "mstart":
 		return "status:" + t.arg, true
-	case "wait", "mwait":
+	case "wait", "mwait", "rewait":
 		return "status:" + t.arg, false
 	case "set":
 		return "status:" + t.name, true
